@@ -20,6 +20,9 @@ func init() {
 }
 
 func runC14(c *Checker) {
+	// a message arrives whole only if every one of its chunks is delivered exactly once and in
+	// order: the delivery obligations (C01) are part of this check
+	importLayers(c, "C01")
 	w := c.w
 	send := w.Func("(*gbn.GoBackNConn).Send")
 	recv := w.Func("(*gbn.GoBackNConn).Recv")
